@@ -32,6 +32,40 @@ def run(repo: Repo, chk: Check) -> None:
     request_path(repo, chk)
     sealed_requests(repo, chk)
     no_swallow(repo, chk, "O5", ["_rpc._client", "_rpc._auth"])
+    wire_bytes(repo, chk)
+
+
+class _Relabel:
+    """Check facade that files another rule module's obligations under one obligation id of this property."""
+
+    def __init__(self, chk: Check, rule: str) -> None:
+        self._chk, self._rule = chk, rule
+
+    def ob(self, _rule: str, *a: t.Any, **k: t.Any) -> t.Any:
+        return self._chk.ob(self._rule, *a, **k)
+
+    def __getattr__(self, name: str) -> t.Any:
+        return getattr(self._chk, name)
+
+
+def wire_bytes(repo: Repo, chk: Check) -> None:
+    """What _process_response verifies and parses is the reply as it arrived: in both transports the buffer handed over is
+    the received header bytes followed by the completely received body (C14's reassembly rule, filed here under O2 - the
+    windows given to unwrap are windows of that buffer)."""
+    from sa.intervals import World
+    from sa.symeval import Unsupported
+
+    from . import c14
+
+    sub = _Relabel(chk, "O2")
+    helpers = c14.transport_reads(repo, t.cast(Check, sub), World(repo))
+    for q in ("_rpc._client.SyncRpcClient._send_pdu", "_rpc._client.AsyncRpcClient._send_pdu"):
+        try:
+            c14.reassembly(repo, t.cast(Check, sub), repo.func(q), helpers)
+        except Unsupported as e:
+            if any(not o.ok and o.site.function == q for o in chk.obligations):
+                continue
+            raise AnalysisError(f"{q} left the idiom table: {e}")
 
 
 # ------------------------------------------------------------------------- O1
